@@ -338,17 +338,14 @@ def strdupAlloc (c : Cfg) (img : NodeImage) (s : State) (str : List UInt8) (size
 def cStrdup (c : Cfg) (img : NodeImage) (s : State) (str : List UInt8) (a1 a2 : Ans) : State × List Ev × Outcome :=
   match cstrlen str with
   | none => (s, [], .ub "unterminated source string")
-  | some len => strdupAlloc c img s str (1#64 + BitVec.ofNat 64 len) a1 a2
-
-/-- `length = length < n ? length : n; length = length + 1;` -/
-def strndupSize (len n : W) : W := (if BitVec.ult len n then len else n) + 1#64
+  | some len => strdupAlloc c img s str (strdupLength (BitVec.ofNat 64 len)) a1 a2
 
 /-- `cpputest_strndup_location` -/
 def cStrndup (c : Cfg) (img : NodeImage) (s : State) (str : List UInt8) (n : W) (a1 a2 : Ans) :
     State × List Ev × Outcome :=
   match cstrlen str with
   | none => (s, [], .ub "unterminated source string")
-  | some len => strdupAlloc c img s str (strndupSize (BitVec.ofNat 64 len) n) a1 a2
+  | some len => strdupAlloc c img s str (strndupLength (BitVec.ofNat 64 len) n) a1 a2
 
 /-! ## operator new (MemoryLeakWarningPlugin.cpp) -/
 
@@ -372,5 +369,72 @@ def operatorNew (c : Cfg) (img : NodeImage) (s : State) (v : NewVariant) (size :
   | other => other
 
 def findVariant (name : String) : Option NewVariant := newVariants.find? (fun v => v.1 == name)
+
+/-! ## release: `mem_leak_free`, `mem_leak_operator_delete(_array)` -/
+
+/-- `memoryTable_.retrieveNode(memory)` -/
+def retrieveRec (t : List Rec) (id : Nat) : Option Rec := t.find? (fun r => r.id == id)
+
+/-- `MemoryLeakDetector::invalidateMemory`: the user bytes of a tracked block are overwritten with
+    the poison byte (`memset(memory, 0xCD, node->size_)`); `none` = the memset leaves the block -/
+def invalidateMemory (s : State) (ptr : Option Nat) : Option State :=
+  match ptr with
+  | none => some s
+  | some id =>
+    match retrieveRec s.tracked id with
+    | none => some s
+    | some r =>
+      match writeBlock s.mem id 0 (List.replicate r.size.toNat poisonByte) with
+      | none => none
+      | some m => some { s with mem := m }
+
+/-- `invalidateMemory(p); deallocMemory(allocator, p, ...)` -/
+def release (c : Cfg) (s : State) (fam : Nat) (ptr : Option Nat) (sep0 : Bool) : State × List Ev × Outcome :=
+  match invalidateMemory s ptr with
+  | none => (s, [], .ub "poison written outside the block")
+  | some s1 => deallocMemory c s1 fam ptr sep0
+
+/-- `cpputest_free` -/
+def cFree (c : Cfg) (s : State) (ptr : Option Nat) : State × List Ev × Outcome := release c s famMalloc ptr true
+
+/-- `operator delete` / `operator delete[]` -/
+def operatorDelete (c : Cfg) (s : State) (array : Bool) (ptr : Option Nat) : State × List Ev × Outcome :=
+  release c s (if array then famNewArray else famNew) ptr false
+
+/-! ## histories of public operations -/
+
+/-- the client stores into a block it was given -/
+def clientWrite (s : State) (id off : Nat) (src : List UInt8) : State × List Ev × Outcome :=
+  match writeBlock s.mem id off src with
+  | none => (s, [], .ub "client wrote outside the block")
+  | some m => ({ s with mem := m }, [], .null)
+
+/-- one call of the public API together with what the environment answered -/
+inductive Op
+  | new (v : NewVariant) (size : W) (a1 a2 : Ans)
+  | malloc (size : W) (a1 a2 : Ans)
+  | calloc (num size : W) (a1 a2 : Ans)
+  | strdup (buf : List UInt8) (a1 a2 : Ans)
+  | strndup (buf : List UInt8) (n : W) (a1 a2 : Ans)
+  | realloc (ptr : Option Nat) (size : W) (ar : RAns) (a2 : Ans)
+  | free (ptr : Option Nat)
+  | delete (array : Bool) (ptr : Option Nat)
+  | write (id off : Nat) (src : List UInt8)
+
+def step (c : Cfg) (img : NodeImage) (s : State) : Op → State × List Ev × Outcome
+  | .new v size a1 a2 => operatorNew c img s v size a1 a2
+  | .malloc size a1 a2 => cMalloc c img s size a1 a2
+  | .calloc num size a1 a2 => cCalloc c img s num size a1 a2
+  | .strdup buf a1 a2 => cStrdup c img s buf a1 a2
+  | .strndup buf n a1 a2 => cStrndup c img s buf n a1 a2
+  | .realloc ptr size ar a2 => cRealloc c img s ptr size ar a2
+  | .free ptr => cFree c s ptr
+  | .delete array ptr => operatorDelete c s array ptr
+  | .write id off src => clientWrite s id off src
+
+/-- the state after a history -/
+def run (c : Cfg) (img : NodeImage) (s : State) : List Op → State
+  | [] => s
+  | op :: ops => run c img (step c img s op).1 ops
 
 end AllocLayout
